@@ -44,6 +44,8 @@ var c19Queries = []string{
 	"SELECT SUM(a) AS s FROM t WHERE a > ? HAVING vfault(1) = 1",
 	"SELECT COUNT(*) AS n FROM t WHERE vfault(a) > ?",
 	"SELECT a FROM t WHERE a > ? LIMIT 1",
+	"SELECT a, AWAIT(vfault(a)) AS v FROM t WHERE a > ?",
+	"SELECT a, (SELECT AWAIT(vfault(p)) AS w FROM items) AS sub FROM t WHERE a > ?",
 }
 
 // H_C19_faults: a user function failing at its k-th invocation (any k), a
